@@ -580,6 +580,9 @@ KF_PhReleasedInFlight == Step /\ E.op = "release" /\ E.app \in AppsOf(Pre) /\ E.
 \* of its placeholders is being replaced
 KF_PhTimeoutInFlight == Step /\ E.op = "firePhTimer" /\ E.armed /\ E.app \in AppsOf(Pre) /\ Pre.apps[E.app].state = "Accepted"
       /\ \E k \in DOMAIN Pre.apps[E.app].allocs : Pre.apps[E.app].allocs[k].ph /\ Pre.apps[E.app].allocs[k].rel # ""
+\* the placeholder timeout fires for a Hard application that is still Accepted although it already holds a real allocation
+KF_HardTimeoutWithReal == Step /\ E.op = "firePhTimer" /\ E.armed /\ E.style = "Hard" /\ E.app \in AppsOf(Pre) /\ Pre.apps[E.app].state = "Accepted"
+      /\ \E k \in DOMAIN Pre.apps[E.app].allocs : ~Pre.apps[E.app].allocs[k].ph
 \* the shim confirms a placeholder replacement while the application is Completing
 KF_ConfirmWhileCompleting == IsReplConfirm /\ Pre.apps[E.app].state = "Completing"
 \* a Soft gang application resumes (Resuming -> Accepted) with neither asks nor allocations left
@@ -631,6 +634,7 @@ KFAll == /\ KFHit("KF-C01-REQNODE-UNSCHED", KF_ReqNodeUnsched)
          /\ KFHit("KF-C04-RELEASE-LINKED-REAL", KF_ReleaseLinkedReal)
          /\ KFHit("KF-C06-PH-RELEASED-INFLIGHT", KF_PhReleasedInFlight)
          /\ KFHit("KF-C06-PHTIMEOUT-INFLIGHT", KF_PhTimeoutInFlight)
+         /\ KFHit("KF-C06-HARD-TIMEOUT-WITH-REAL", KF_HardTimeoutWithReal)
          /\ KFHit("KF-C10-CONFIRM-WHILE-COMPLETING", KF_ConfirmWhileCompleting)
          /\ KFHit("KF-C10-SOFT-RESUME-IDLE", KF_SoftResumeIdle)
          /\ KFHit("KF-C09-RESERVED-ASK-REPLACES", KF_ReservedAskReplaces)
